@@ -61,6 +61,9 @@ RECORDS = {
 	'GenomeMatch': dict(fields=[('genome', GENOME), ('distance', NUM), ('matched_taxon', OPT(TAXON))],
 	                    # attrs default of matched_taxon: matching_taxon(self.genome.taxon, self.distance)
 	                    defaults={'matched_taxon': ('call', 'matching_taxon', ['genome.taxon', 'distance'])}),
+	# Bio.Phylo.BaseTree.Clade as far as linkage_to_bio_tree uses it (labels are naturals, heights exact integers)
+	'Clade': dict(fields=[('name', OPT(NUM)), ('branch_length', OPT(INT)), ('clades', ('list', ('rec', 'Clade')))],
+	              defaults={'name': 'none', 'branch_length': 'none', 'clades': '[]'}),
 	'QueryParams': dict(fields=[('classify_strict', BOOL), ('chunksize', OPT(INT)), ('report_closest', INT)], defaults={}),
 	'QueryResultItem': dict(fields=[('input', INT), ('classifier_result', ('rec', 'ClassifierResult')), ('report_taxon', OPT(TAXON)),
 	                                ('closest_genomes', ('list', ('rec', 'GenomeMatch')))], defaults={}),
@@ -199,6 +202,9 @@ FUNCS = [
 	     calls={'SetAccumulator': ('(Py.Acc.new false {0})', ('acc',), []), 'ArrayAccumulator': ('(Py.Acc.new true {0})', ('acc',), [('(decide ({0} < 0))', 'ValueError')])}),
 	dict(name='calc_signature', file='sigs/calc.py', qual='calc_signature', module='PyCalcSig', env=[],
 	     params=[('kmerspec', KSPEC), ('seqs', LIST(BYTES)), ('accumulator', OPT(('acc',)))], ret=LIST(INT)),
+	# --- cluster.py: linkage matrix -> tree (heights as exact integers; link rows = (left, right, height, size))
+	dict(name='linkage_to_bio_tree', file='cluster.py', qual='linkage_to_bio_tree', module='PyCluster', env=[],
+	     params=[('link', LIST(TUP(INT, INT, INT, INT))), ('labels', LIST(NUM))], ret=REC('Clade'), locals={'clades': LIST(REC('Clade'))}),
 	# --- how the command line reconciles k-mer parameters (C14).  kspec_from_params as a whole; of the three command functions the
 	#     fragment that decides which parameters are used (between the named statements), as a function of what it reads: the explicit
 	#     options and the parameters of the signature sources present (a source is represented by its KmerSpec).
@@ -691,7 +697,20 @@ class Fn:
 		return E('[' + ', '.join(p.lean for p in parts) + ']', LIST(parts[0].ty), guard_all(parts))
 
 	def e_Subscript(self, n):
+		if (isinstance(n.value, ast.Attribute) and n.value.attr == 'shape' and isinstance(n.slice, ast.Constant) and n.slice.value == 0):
+			o = self.value(n.value.value)
+			if o.ty[0] == 'list': return E(f'(({o.lean}).length : Int)', INT, o.raises)      # rows of a 2-d array
+			raise Untranslatable(f'.shape[0] of {o.ty}')
 		o = self.value(n.value)
+		if (o.ty[0] == 'list' and o.ty[1][0] == 'tuple' and isinstance(n.slice, ast.Tuple) and len(n.slice.elts) == 2
+				and isinstance(n.slice.elts[1], ast.Constant) and isinstance(n.slice.elts[1].value, int) and 0 <= n.slice.elts[1].value < len(o.ty[1][1])):
+			# a[r, c] on a two-dimensional array given as a list of rows, c a literal column
+			r = self.value(n.slice.elts[0])
+			if r.ty != INT: raise Untranslatable('row index that is not an int')
+			c, w = n.slice.elts[1].value, len(o.ty[1][1])
+			proj = ''.join(['.2'] * c) + ('.1' if c < w - 1 else '')
+			row = f'((Py.getItem? {o.lean} {r.lean}).getD {default(o.ty[1])})'
+			return E(f'({row}){proj}', o.ty[1][1][c], o.raises + r.raises + [(f'(Py.getItem? {o.lean} {r.lean}).isNone', 'IndexError')])
 		if o.ty == ('sigs',) and not isinstance(n.slice, ast.Slice):
 			i = self.value(n.slice)
 			if i.ty == INT:
@@ -887,6 +906,8 @@ class Fn:
 				a = self.value(args[0])
 				if a.ty != ('sigs',): raise Untranslatable(f'SignatureList of {a.ty}')
 				return E(f'({{ {a.lean} with kind := 1 }} : Py.Sigs)', ('sigs',), a.raises)
+			if name == 'Tree' and not args and set(kw) == {'root', 'rooted'} and ast.unparse(kw['rooted']) == 'True':
+				return self.expr(kw['root'])      # a rooted tree is represented by its root clade
 			if name == 'KmerSpec' and len(args) == 2 and not kw:
 				a, b = self.value(args[0]), self.value(args[1])
 				if a.ty != INT or b.ty != BYTES: raise Untranslatable('KmerSpec argument types')
